@@ -314,7 +314,9 @@ func (g *gen) authReply() replySpec {
 
 func (g *gen) failReply(ms []rscp.Message) replySpec {
 	items := encItems(ms)
-	switch g.pick(12) {
+	switch g.pick(14) {
+	case 13:
+		return replySpec{behaviour{kind: "badCrcThenFrame", items: items}, "P invalidCrc 1 " + msgsString(ms)}
 	case 10:
 		return replySpec{behaviour{kind: "stallInside", k: 100 + []int{0, 1, 10, 31, 32, 33, 40, 63}[g.pick(8)], items: items}, "X"}
 	case 11:
@@ -482,7 +484,7 @@ func init() {
 				// a reply with a wrong checksum is never handed to the caller, whatever the client's own checksum option
 				if strings.HasPrefix(r, "ok ") && c.kind != "D" {
 					authedNow := strings.Contains(r, fmt.Sprintf("[ M %d ", s.authTag))
-					if c.user.beh.kind == "badCrc" || c.user.beh.kind == "badCrcOnce" || (authedNow && (c.auth.beh.kind == "badCrc" || c.auth.beh.kind == "badCrcOnce")) {
+					if c.user.beh.kind == "badCrc" || c.user.beh.kind == "badCrcOnce" || c.user.beh.kind == "badCrcThenFrame" || (authedNow && (c.auth.beh.kind == "badCrc" || c.auth.beh.kind == "badCrcOnce")) {
 						addVerdict(&prop, "FAIL C08 a call whose reply carried a wrong checksum returns success: "+trunc(r, 120)+" ;; FAIL C04 a reply with a wrong checksum is accepted")
 					}
 				}
